@@ -36,17 +36,24 @@ package main
 //@   ensures okPQ(pq)
 //@   ensures pq[i] == old(pq[j]) && pq[j] == old(pq[i])
 //@   ensures forall k int :: 0 <= k && k < len(pq) && k != i && k != j ==> pq[k] == old(pq[k])
+//@   ensures forall p *queueItem :: {p.heapIdx} p != nil && p != old(pq[i]) && p != old(pq[j]) ==> p.heapIdx == old(p.heapIdx)
+//@   assigns pq[*], fieldof(queueItem, heapIdx)
 
 //@ func main.(*pqueue).Pop
 //@   requires pq != nil && okPQ(deref(pq)) && len(deref(pq)) > 0
 //@   ensures okPQ(deref(pq)) && len(deref(pq)) == old(len(deref(pq))) - 1
 //@   ensures forall k int :: 0 <= k && k < len(deref(pq)) ==> deref(pq)[k] == old(deref(pq)[k])
+//@   ensures typeis(result, "*queueItem") && as(result, "*queueItem") == old(deref(pq)[len(deref(pq))-1]) && as(result, "*queueItem").heapIdx == -1
+//@   ensures forall p *queueItem :: {p.heapIdx} p != nil && p != as(result, "*queueItem") ==> p.heapIdx == old(p.heapIdx)
+//@   assigns deref(pq), fieldof(queueItem, heapIdx)
 
 //@ func main.(*pqueue).Push
 //@   requires pq != nil && okPQ(deref(pq)) && typeis(x, "*queueItem") && as(x, "*queueItem") != nil
 //@   requires forall k int :: 0 <= k && k < len(deref(pq)) ==> deref(pq)[k] != as(x, "*queueItem")
 //@   ensures okPQ(deref(pq)) && len(deref(pq)) == old(len(deref(pq))) + 1 && deref(pq)[len(deref(pq))-1] == as(x, "*queueItem")
 //@   ensures forall k int :: 0 <= k && k < old(len(deref(pq))) ==> deref(pq)[k] == old(deref(pq)[k])
+//@   ensures forall p *queueItem :: {p.heapIdx} p != nil && p != as(x, "*queueItem") ==> p.heapIdx == old(p.heapIdx)
+//@   assigns deref(pq), anyelem("*queueItem"), fieldof(queueItem, heapIdx)
 
 // Queue representation invariant: the map is keyed by the item's own repoID;
 // an item with heapIdx >= 0 sits in that slot of the heap.
@@ -54,11 +61,12 @@ package main
 //@ pure func okLink(q *Queue) bool = forall k uint32 :: {mapval(q.items, k)} has(q.items, k) && q.items[k].heapIdx >= 0 ==> q.items[k].heapIdx < len(q.pq) && q.pq[q.items[k].heapIdx] == q.items[k]
 //@ pure func okQueue(q *Queue) bool = q.items != nil && okItems(q) && okLink(q) && okPQ(q.pq)
 
-// container/heap on a pqueue (assumed; rely/guarantee on the five methods
-// proved above): Remove takes out the item in slot i, marks it off-heap, keeps
-// every other item on the heap and the representation invariant.
+// container/heap on a pqueue (verified against the library source, over the
+// interface-method contracts of zz_verif_contracts_c30.go): Remove takes out
+// the item in slot i, marks it off-heap, keeps every other item on the heap and
+// the representation invariant.
 //@ func heap.Remove
-//@   trusted
+//@   flag split_returns=1
 //@   requires typeis(h, "*pqueue") && as(h, "*pqueue") != nil && okPQ(deref(as(h, "*pqueue"))) && 0 <= i && i < len(deref(as(h, "*pqueue")))
 //@   ensures okPQ(deref(as(h, "*pqueue"))) && len(deref(as(h, "*pqueue"))) == old(len(deref(as(h, "*pqueue")))) - 1
 //@   ensures old(deref(as(h, "*pqueue"))[i]).heapIdx == -1
